@@ -593,7 +593,13 @@ def s_decodable(E, args, kw, st, node):
     yield st, SVal(E.uf("decodable", [E.U.Bytes], z3.BoolSort())(E.coerce(args[0], BYTES, st).t), BOOL)
 
 
-SPEC_FORMS = {"utf8": s_utf8, "decode_utf8": s_decode, "decodable": s_decodable, "exc_code": s_exc_code, "implies": s_implies, "iff": s_iff, "ANY": s_any, "store": s_store, "ite": s_ite, "distinct": s_distinct,
+def s_list_set(E, args, kw, st, node):
+    """list_set(xs, i, v): xs with element i replaced"""
+    xs, i, v = args
+    yield st, SVal(Q.Update(xs.t, E.coerce(i, INT, st).t, E.coerce(v, xs.ty.elem, st).t), xs.ty)
+
+
+SPEC_FORMS = {"list_set": s_list_set, "utf8": s_utf8, "decode_utf8": s_decode, "decodable": s_decodable, "exc_code": s_exc_code, "implies": s_implies, "iff": s_iff, "ANY": s_any, "store": s_store, "ite": s_ite, "distinct": s_distinct,
               "none": s_none, "dom": s_dom, "lookup": s_lookup, "subset": s_subset, "typed_empty": s_typed_empty}
 
 
